@@ -3,6 +3,7 @@
 from __future__ import annotations
 
 import asyncio
+import copy
 import gc
 import multiprocessing
 import signal
@@ -40,6 +41,26 @@ ASSUMPTIONS = [
     "finished elements are required to be loadable only for file_array (the backend that writes inside the worker)",
     "tasks of the failing generation that were already submitted may still run; only dependants must not",
 ]
+
+
+_LOGS: dict = {}
+
+
+def _log_lookup(key):
+    return _LOGS[key]
+
+
+class _SharedLog(list):
+    """The in-process call log: serialising a tracer (deepcopy / pickling of a PipeFunc serialises its function by
+    value) must not fork the log, so the log pickles to a reference to itself."""
+
+    def __reduce__(self):
+        _LOGS[id(self)] = self
+        return (_log_lookup, (id(self),))
+
+
+RESTORE = ["none", "none", "deepcopy", "copy"]
+RESTORE_MAP = ["none", "none", "deepcopy", "copy", "pickle"]
 
 
 class CustomError(Exception):
@@ -111,6 +132,12 @@ def check_snapshot(out: Outcome, tag: str, snap, exc_key: str, log_reset):
     from pipefunc._pipefunc import ErrorSnapshot
 
     cls, args = EXC[exc_key]
+    if callable(snap):  # the attribute is read here so that a raising read is a finding, not a harness error
+        try:
+            snap = snap()
+        except Exception as e:
+            out.fail(f"{tag}-error_snapshot-read-raised:{type(e).__name__}", exc_detail(e))
+            return
     if snap is None:
         out.fail(f"{tag}-no-error_snapshot", "")
         return
@@ -143,6 +170,13 @@ def check_snapshot(out: Outcome, tag: str, snap, exc_key: str, log_reset):
 
 # ---- DAG campaign --------------------------------------------------------------------------------------
 def body_dag(data) -> Outcome:
+    try:
+        return _body_dag(data)
+    finally:
+        _LOGS.clear()
+
+
+def _body_dag(data) -> Outcome:
     out = Outcome()
     prog, pick, exc_key, style = data["prog"], data["pick"], data["exc"], data["style"]
     m = DagModel(prog)
@@ -153,7 +187,7 @@ def body_dag(data) -> Outcome:
     want, executed, _, _, calls, _ = m.evaluate(target, kw)
     fail_fn = executed[(pick // 7) % len(executed)]
     out.labels = [f"exc:{exc_key}", f"style:{style}"]
-    log: list = []
+    log: list = _SharedLog()
     cls, args = EXC[exc_key]
 
     def fail(fname, a):
@@ -165,6 +199,16 @@ def body_dag(data) -> Outcome:
     except Exception:
         out.labels.append("n/a:build-refused")
         return out
+    # a restored pipeline (copy.deepcopy goes through PipeFunc.__getstate__/__setstate__ like pickling does, while
+    # the tracer functions -- and the call log they write -- stay the same objects) behaves like the original
+    restore = RESTORE[(pick // 31) % len(RESTORE)]
+    if restore != "none":
+        try:
+            p = copy.deepcopy(p) if restore == "deepcopy" else p.copy()
+        except Exception as e:
+            out.fail(exc_bucket(e, f"dag-{restore}-raised"), exc_detail(e))
+            return out
+    out.labels.append(f"restore:{restore}")
     fn = m.funcs[fail_fn]
     call_args = next(c for c in calls if c[0] == fail_fn)[1]
     kw_reprs = {pname: repr(v) for pname, v in zip(fn["params"], call_args)}
@@ -192,8 +236,8 @@ def body_dag(data) -> Outcome:
         if set(names) & dependants:
             out.fail(f"dag-{style}-dependant-invoked", repr(names))
         pf = p[fn["outs"][0]]
-        check_snapshot(out, f"dag-{style}-func", pf.error_snapshot, exc_key, lambda: log.clear())
-        check_snapshot(out, f"dag-{style}-pipeline", p.error_snapshot, exc_key, lambda: log.clear())
+        check_snapshot(out, f"dag-{style}-func", lambda: pf.error_snapshot, exc_key, lambda: log.clear())
+        check_snapshot(out, f"dag-{style}-pipeline", lambda: p.error_snapshot, exc_key, lambda: log.clear())
         return out
     out.fail(f"dag-{style}-failure-swallowed", f"returned {r!r}")
     return out
@@ -265,6 +309,19 @@ def body_map(data) -> Outcome:
         except Exception:
             out.labels.append("n/a:build-refused")
             return out
+        restore = RESTORE_MAP[(pick // 31) % len(RESTORE_MAP)]
+        if restore != "none":
+            try:
+                if restore == "pickle":
+                    import cloudpickle
+
+                    pipe = cloudpickle.loads(cloudpickle.dumps(pipe))
+                else:
+                    pipe = copy.deepcopy(pipe) if restore == "deepcopy" else pipe.copy()
+            except Exception as e:
+                out.fail(exc_bucket(e, f"{tag}-{restore}-raised"), exc_detail(e))
+                return out
+        out.labels.append(f"restore:{restore}")
         kw = dict(run_folder=folder, internal_shapes=mp.internal_shapes_arg(prog), storage=mp.storage_arg(prog))
         in_process = True
         if mode == "seq":
@@ -278,6 +335,9 @@ def body_map(data) -> Outcome:
         elif mode == "process":
             kw["executor"] = ProcessPoolExecutor(max_workers=cfg.get("workers", 2), mp_context=multiprocessing.get_context("fork"))
             executors.append(kw["executor"])
+            in_process = False
+        elif mode == "default_pool":  # the pool pipefunc creates itself: parallel=True without an executor
+            kw["parallel"] = True
             in_process = False
         inputs = mp.make_inputs(prog)
 
@@ -320,8 +380,8 @@ def body_map(data) -> Outcome:
         # generation structure: no call of a *later* generation than the failing function's
         if in_process:
             pf = pipe[funcs[fname]["outs"][0]]
-            check_snapshot(out, f"{tag}-func", pf.error_snapshot, exc_key, lambda: None)
-            check_snapshot(out, f"{tag}-pipeline", pipe.error_snapshot, exc_key, lambda: None)
+            check_snapshot(out, f"{tag}-func", lambda: pf.error_snapshot, exc_key, lambda: None)
+            check_snapshot(out, f"{tag}-pipeline", lambda: pipe.error_snapshot, exc_key, lambda: None)
         # results completed before the failure remain loadable (file_array writes inside the worker)
         storage = prog["storage"]
         gen: dict[str, int] = {}
@@ -374,12 +434,12 @@ def body_map(data) -> Outcome:
 
 @st.composite
 def map_cfg(draw):
-    mode = draw(st.sampled_from(["sched", "thread", "seq", "sched", "process", "thread", "sched"]))
+    mode = draw(st.sampled_from(["sched", "thread", "seq", "sched", "process", "thread", "sched", "default_pool"]))
     cfg = {"mode": mode, "entry": draw(st.sampled_from(["map", "map", "async"]))}
     if mode == "sched":
         cfg["choices"] = draw(st.lists(st.integers(0, 8), min_size=1, max_size=10))
         cfg["eager"] = draw(st.lists(st.sampled_from([0, 0, 0, 1, 2]), min_size=1, max_size=5))
-    if mode in ("thread", "process"):
+    if mode in ("thread", "process", "default_pool"):
         cfg["delays"] = draw(st.lists(st.sampled_from([0, 0, 1, 3]), min_size=1, max_size=4))
         cfg["workers"] = draw(st.integers(2, 3))
     return cfg
